@@ -243,6 +243,300 @@ fn run_pkg(t: &[&str]) -> String {
     )
 }
 
+/// Exhaustive decoding of an index section, independent of UnitIndex: used slots and the rows' contributions
+/// per section kind code (0 abbrev 1 info 2 line 3 loc 4 loclists 5 macinfo 6 macro 7 rnglists 8 str_offsets 9 types).
+struct RawIndex {
+    used: Vec<(u64, u32)>,
+    units: usize,
+    rows: Vec<[(usize, usize); 10]>,
+}
+fn raw_index(b: &[u8], be: bool) -> Option<RawIndex> {
+    if b.is_empty() {
+        return Some(RawIndex { used: Vec::new(), units: 0, rows: Vec::new() });
+    }
+    let v2 = rd_u(b, 0, 4, be)? == 2;
+    let sc = rd_u(b, 4, 4, be)? as usize;
+    let uc = rd_u(b, 8, 4, be)? as usize;
+    let slots = rd_u(b, 12, 4, be)? as usize;
+    let ids_off = 16;
+    let rows_off = ids_off + 8 * slots;
+    let cols_off = rows_off + 4 * slots;
+    let offs_off = cols_off + 4 * sc;
+    let sizes_off = offs_off + 4 * sc * uc;
+    let mut used = Vec::new();
+    for s in 0..slots {
+        let id = rd_u(b, ids_off + 8 * s, 8, be)?;
+        if id != 0 {
+            used.push((id, rd_u(b, rows_off + 4 * s, 4, be)? as u32));
+        }
+    }
+    let kind = |code: u64| -> Option<usize> {
+        Some(match (v2, code) {
+            (_, 1) => 1,
+            (true, 2) => 9,
+            (_, 3) => 0,
+            (_, 4) => 2,
+            (true, 5) => 3,
+            (false, 5) => 4,
+            (_, 6) => 8,
+            (true, 7) => 5,
+            (true, 8) => 6,
+            (false, 7) => 6,
+            (false, 8) => 7,
+            _ => return None,
+        })
+    };
+    let mut rows = Vec::new();
+    for r in 0..uc {
+        let mut row = [(0usize, 0usize); 10];
+        for j in 0..sc {
+            let k = kind(rd_u(b, cols_off + 4 * j, 4, be)?)?;
+            row[k] = (
+                rd_u(b, offs_off + 4 * (r * sc + j), 4, be)? as usize,
+                rd_u(b, sizes_off + 4 * (r * sc + j), 4, be)? as usize,
+            );
+        }
+        rows.push(row);
+    }
+    Some(RawIndex { used, units: uc, rows })
+}
+
+// ---- whole packages: both indexes, compilation and type units (mirrors dwp_case of s_c17.ml)
+fn run_dwp(t: &[&str]) -> String {
+    let e = endian(t[1]);
+    let cu_index = hex(t[2]);
+    let tu_index = hex(t[3]);
+    // section buffers (kind-code order) with slack so that used ranges of different sections never touch
+    let lens: Vec<usize> = (0..10).map(|k| hex(t[4 + k]).len()).collect();
+    let bufs: Vec<Vec<u8>> = (0..10)
+        .map(|k| {
+            let mut v = hex(t[4 + k]);
+            v.extend_from_slice(&[0xdd; 8]);
+            v
+        })
+        .collect();
+    let nids: usize = t[14].parse().unwrap();
+    let ids: Vec<u64> = (0..nids).map(|k| u(t[15 + k])).collect();
+    let maxrow: u32 = t[15 + nids].parse().unwrap();
+    let sec = |k: usize| -> &[u8] { &bufs[k][..lens[k]] };
+    let empty_buf = vec![0u8; 8];
+    let loader = |id: SectionId| -> Result<R, gimli::Error> {
+        let s: &[u8] = match id {
+            SectionId::DebugCuIndex => &cu_index,
+            SectionId::DebugTuIndex => &tu_index,
+            SectionId::DebugAbbrev => sec(0),
+            SectionId::DebugInfo => sec(1),
+            SectionId::DebugLine => sec(2),
+            SectionId::DebugLoc => sec(3),
+            SectionId::DebugLocLists => sec(4),
+            SectionId::DebugMacinfo => sec(5),
+            SectionId::DebugMacro => sec(6),
+            SectionId::DebugRngLists => sec(7),
+            SectionId::DebugStrOffsets => sec(8),
+            SectionId::DebugTypes => sec(9),
+            _ => &empty_buf[..0],
+        };
+        Ok(EndianSlice::new(s, e))
+    };
+    let dwp = match DwarfPackage::load(loader, EndianSlice::new(&empty_buf[..0], e)) {
+        Ok(d) => d,
+        Err(er) => return err(&er),
+    };
+    let parent: Dwarf<R> = Dwarf::load(|_| Ok::<_, gimli::Error>(EndianSlice::new(&empty_buf[4..4], e))).unwrap();
+    // returns the printed form, the (start, len) of the ten section kinds, and (type code, id) of the units
+    let show = |res: gimli::Result<Dwarf<R>>| -> (String, Option<[(usize, usize); 10]>, Vec<(u32, u64)>) {
+        let d = match res {
+            Ok(d) => d,
+            Err(er) => return (format!("E:{}", errname(&er)), None, Vec::new()),
+        };
+        let mut facts: Vec<(u32, u64)> = Vec::new();
+        let pos = |k: usize, r: &R| -> (usize, usize) { (r.slice().as_ptr() as usize - bufs[k].as_ptr() as usize, r.len()) };
+        let rng = |k: usize, r: &R| -> String {
+            let o = r.slice().as_ptr() as usize - bufs[k].as_ptr() as usize;
+            format!("{}.{}.{}", k, o, r.len())
+        };
+        let loc = match scan_range(|id| d.locations.lookup_offset_id(id), &bufs[3], SectionId::DebugLoc) {
+            Some((o, z)) => format!("3.{}.{}", o, z),
+            None => return ("wiring-mismatch locations.debug_loc".into(), None, Vec::new()),
+        };
+        let loclists = match scan_range(|id| d.locations.lookup_offset_id(id), &bufs[4], SectionId::DebugLocLists) {
+            Some((o, z)) => format!("4.{}.{}", o, z),
+            None => return ("wiring-mismatch locations.debug_loclists".into(), None, Vec::new()),
+        };
+        let loc_pos = scan_range(|id| d.locations.lookup_offset_id(id), &bufs[3], SectionId::DebugLoc).unwrap();
+        let loclists_pos = scan_range(|id| d.locations.lookup_offset_id(id), &bufs[4], SectionId::DebugLocLists).unwrap();
+        let ranges: [(usize, usize); 10] = [
+            pos(0, d.debug_abbrev.reader()),
+            pos(1, d.debug_info.reader()),
+            pos(2, d.debug_line.reader()),
+            loc_pos,
+            loclists_pos,
+            pos(5, d.debug_macinfo.reader()),
+            pos(6, d.debug_macro.reader()),
+            pos(7, d.ranges.debug_rnglists().reader()),
+            pos(8, d.debug_str_offsets.reader()),
+            pos(9, d.debug_types.reader()),
+        ];
+        // the units of the returned contribution: type, id, name
+        let mut units: Vec<String> = Vec::new();
+        let mut headers = Vec::new();
+        let mut it = d.units();
+        loop {
+            match it.next() {
+                Ok(Some(h)) => headers.push(h),
+                Ok(None) => break,
+                Err(er) => {
+                    units.push(format!("U!{}", errname(&er)));
+                    break;
+                }
+            }
+        }
+        let mut it = d.type_units();
+        loop {
+            match it.next() {
+                Ok(Some(h)) => headers.push(h),
+                Ok(None) => break,
+                Err(er) => {
+                    units.push(format!("U!{}", errname(&er)));
+                    break;
+                }
+            }
+        }
+        for h in headers {
+            let ty = h.type_();
+            match d.unit(h) {
+                Ok(unit) => {
+                    let (code, uid) = match ty {
+                        gimli::UnitType::Compilation => (1, unit.dwo_id.map(|x| x.0).unwrap_or(0)),
+                        gimli::UnitType::Type { type_signature, .. } => (2, type_signature.0),
+                        gimli::UnitType::Partial => (3, 0),
+                        gimli::UnitType::Skeleton(i) => (4, i.0),
+                        gimli::UnitType::SplitCompilation(i) => (5, i.0),
+                        gimli::UnitType::SplitType { type_signature, .. } => (6, type_signature.0),
+                    };
+                    let name = unit.name.map(|n| tohex(n.slice())).unwrap_or_else(|| "noname".to_string());
+                    units.push(format!("U{}.{}.{}", code, uid, name));
+                    facts.push((code, uid));
+                }
+                Err(er) => units.push(format!("U!{}", errname(&er))),
+            }
+        }
+        let text = format!(
+            "{} {} {} {} {} {} {} {} {} {} {}",
+            rng(0, d.debug_abbrev.reader()),
+            rng(1, d.debug_info.reader()),
+            rng(2, d.debug_line.reader()),
+            loc,
+            loclists,
+            rng(5, d.debug_macinfo.reader()),
+            rng(6, d.debug_macro.reader()),
+            rng(8, d.debug_str_offsets.reader()),
+            rng(7, d.ranges.debug_rnglists().reader()),
+            rng(9, d.debug_types.reader()),
+            if units.is_empty() { "-".to_string() } else { units.join("+") }
+        );
+        (text, Some(ranges), facts)
+    };
+    // ---- spec-level oracle on the implementation: every lookup = exhaustive scan of the raw index of ITS kind,
+    // the returned sections are byte for byte the packaged contributions, and the unit found is the one asked for
+    let be = t[1] == "1";
+    let raw = [raw_index(&cu_index, be), raw_index(&tu_index, be)];
+    let check = |which: usize, what: &str, row: Option<u32>, id: Option<u64>,
+                 got: &(String, Option<[(usize, usize); 10]>, Vec<(u32, u64)>)| -> Option<String> {
+        let ri = raw[which].as_ref()?;
+        match row {
+            Some(r) if r >= 1 && (r as usize) <= ri.units => {
+                let want = ri.rows[r as usize - 1];
+                // contributions lying inside the package sections (always so for generated packages)
+                if (0..10).all(|k| want[k].0 + want[k].1 <= lens[k]) {
+                    match got.1 {
+                        Some(g) if g == want => {}
+                        _ => return Some(format!("package-mismatch {} row {}: sections {} want {:?}", what, r, got.0, want)),
+                    }
+                    for k in 0..10 {
+                        let (o, z) = want[k];
+                        let _ = &bufs[k][o..o + z];
+                    }
+                    if let Some(id) = id {
+                        let tu = which == 1;
+                        let ok = got.2.len() == 1
+                            && got.2[0].1 == id
+                            && (if tu { got.2[0].0 == 2 || got.2[0].0 == 6 } else { got.2[0].0 == 1 || got.2[0].0 == 5 });
+                        if !ok {
+                            return Some(format!("package-mismatch {}({}): unit found is {:?}", what, id, got.2));
+                        }
+                    }
+                }
+                None
+            }
+            Some(r) => {
+                if got.0 != "E:InvalidIndexRow" {
+                    return Some(format!("package-mismatch {} row {}: {}", what, r, got.0));
+                }
+                None
+            }
+            None => None,
+        }
+    };
+    let mut parts: Vec<String> = Vec::new();
+    for &id in &ids {
+        let mut texts = Vec::new();
+        for which in 0..2 {
+            let what = if which == 0 { "find_cu" } else { "find_tu" };
+            let res = if which == 0 {
+                dwp.find_cu(gimli::DwoId(id), &parent)
+            } else {
+                dwp.find_tu(gimli::DebugTypeSignature(id), &parent)
+            };
+            let scan: Option<u32> =
+                raw[which].as_ref().and_then(|ri| ri.used.iter().find(|(x, _)| *x == id && id != 0).map(|(_, r)| *r));
+            match res {
+                Ok(None) => {
+                    if raw[which].is_some() && scan.is_some() {
+                        return format!("lookup-mismatch {}({}) = None, exhaustive scan finds row {:?}", what, id, scan);
+                    }
+                    texts.push("none".to_string());
+                }
+                Ok(Some(d)) => {
+                    let got = show(Ok(d));
+                    if raw[which].is_some() {
+                        match scan {
+                            None => return format!("lookup-mismatch {}({}) found, exhaustive scan finds nothing", what, id),
+                            Some(r) => {
+                                if let Some(m) = check(which, what, Some(r), Some(id), &got) {
+                                    return m;
+                                }
+                            }
+                        }
+                    }
+                    texts.push(got.0);
+                }
+                Err(er) => {
+                    if let (Some(ri), Some(r)) = (raw[which].as_ref(), scan) {
+                        if r >= 1 && (r as usize) <= ri.units && (0..10).all(|k| ri.rows[r as usize - 1][k].0 + ri.rows[r as usize - 1][k].1 <= lens[k]) {
+                            return format!("package-mismatch {}({}) fails with {} although row {} is valid", what, id, errname(&er), r);
+                        }
+                    }
+                    texts.push(format!("E:{}", errname(&er)))
+                }
+            }
+        }
+        parts.push(format!("{}:C={};T={}", id, texts[0], texts[1]));
+    }
+    for row in 0..=maxrow {
+        let c = show(dwp.cu_sections(row, &parent));
+        if let Some(m) = check(0, "cu_sections", Some(row), None, &c) {
+            return m;
+        }
+        let tt = show(dwp.tu_sections(row, &parent));
+        if let Some(m) = check(1, "tu_sections", Some(row), None, &tt) {
+            return m;
+        }
+        parts.push(format!("R{}:C={};T={}", row, c.0, tt.0));
+    }
+    parts.join(" | ")
+}
+
 // ------------------------------------------------------------------ .debug_names
 
 fn show_opt<T, F: FnOnce(T) -> String>(o: Option<T>, f: F) -> String {
@@ -785,6 +1079,7 @@ pub fn run(t: &[&str]) -> String {
             }
         }
         "c17.pkg" => run_pkg(t),
+        "c17.dwp" => run_dwp(t),
         "c17.names" => run_names(t),
         "c17.aranges" => run_aranges(t),
         "c17.pub" => run_pub(t),
